@@ -2,6 +2,7 @@ package batchers
 
 import (
 	"bufio"
+	"bytes"
 	"compress/gzip"
 	"io"
 	"os"
@@ -16,24 +17,54 @@ func canRewind(f *os.File) bool {
 }
 
 // openUnseekableGunzip decides between gzip and plain by peeking at the gzip magic number through
-// a buffered reader, which then serves the data: nothing the probe looked at is lost
+// a buffered reader, which then serves the data; what the header check consumes beyond the magic
+// number is recorded and served again when it is not a gzip header after all: nothing the probe
+// looked at is lost
 func openUnseekableGunzip(filename string, baseFile *os.File) io.ReadCloser {
 	buffered := bufio.NewReader(baseFile)
+	var plain io.Reader = buffered
 	var err error = gzip.ErrHeader
 	if magic, _ := buffered.Peek(2); len(magic) == 2 && magic[0] == 0x1f && magic[1] == 0x8b {
+		probe := &probeRecorder{r: buffered, recording: true}
 		var zfile *gzip.Reader
-		if zfile, err = gzip.NewReader(buffered); err == nil {
+		if zfile, err = gzip.NewReader(probe); err == nil {
+			probe.recording = false
+			probe.seen = nil
 			return gunzipFile{zfile, baseFile}
 		}
+		plain = io.MultiReader(bytes.NewReader(probe.seen), buffered)
 	}
 	logger.Printf("Gunzip error for file %s: %v; Reading as plain file", filename, err)
-	return bufferedFile{buffered, baseFile}
+	return bufferedFile{plain, baseFile}
 }
 
 // bufferedFile reads through the buffer that was used to probe the file and closes the file
 type bufferedFile struct {
-	*bufio.Reader
+	io.Reader
 	io.Closer
+}
+
+// probeRecorder passes reads on and, while recording, keeps a copy of what was read
+type probeRecorder struct {
+	r         *bufio.Reader
+	seen      []byte
+	recording bool
+}
+
+func (s *probeRecorder) Read(p []byte) (int, error) {
+	n, err := s.r.Read(p)
+	if s.recording {
+		s.seen = append(s.seen, p[:n]...)
+	}
+	return n, err
+}
+
+func (s *probeRecorder) ReadByte() (byte, error) {
+	b, err := s.r.ReadByte()
+	if s.recording && err == nil {
+		s.seen = append(s.seen, b)
+	}
+	return b, err
 }
 
 // gunzipFile reads the decompressed data and closes the compressed file along with the decompressor
